@@ -16,10 +16,10 @@ type Finding struct {
 }
 
 type frame struct {
-	hid      int
-	idx      int  // index in the full chain
-	inNext   bool // a Next() call of this frame is in progress
-	nexts    int  // Next() calls issued so far by this frame
+	hid               int
+	idx               int  // index in the full chain
+	inNext            bool // a Next() call of this frame is in progress
+	nexts             int  // Next() calls issued so far by this frame
 	wroteBetweenNexts bool
 }
 
@@ -74,10 +74,10 @@ func Accept(q *world.Req, chain []world.Entry, name func(hid int) string) []Find
 	pos := 0 // chain[:pos] has been started or passed
 	written, cancelVisible, cancelAtEnter := false, false, false
 	const (
-		trInit = iota
-		trAuto       // the run loop is about to decide whether to advance on its own
-		trNext       // a Next() call was just issued by the top frame
-		trRunning    // a handler is running its own code
+		trInit    = iota
+		trAuto    // the run loop is about to decide whether to advance on its own
+		trNext    // a Next() call was just issued by the top frame
+		trRunning // a handler is running its own code
 	)
 	trigger := trInit
 	unwinding := false
